@@ -51,6 +51,112 @@ def is_seq_error(out):
     return out[0] == "raise" and issubclass(out[1], DALISequenceError)
 
 
+# ----------------------------------------------------------------------------- QueryDeviceTypes against any answer stream
+QDT = "dali.sequences:QueryDeviceTypes"
+from pyvc.loops import LoopSpec             # noqa: E402
+from pyvc.models import SymList             # noqa: E402
+from pyvc import sym                        # noqa: E402
+anyst = {}
+
+
+class EndlessAdversary:
+    """a unit that answers every query with an arbitrary value, silence or a framing error - for ever"""
+
+    def __init__(self, ctx):
+        self.ctx = ctx
+        self.n = 0
+
+    def step(self, cmd):
+        if cmd.response is None:
+            return None
+        self.n += 1
+        c = self.ctx
+        kind = c.choose_int(c.fresh_int("adv_kind", 0, 2), "answer kind")
+        val = c.fresh_int("adv_val", 0, 255)
+        if kind == 1:
+            return None
+        if kind == 2:
+            return ("garbled", val)
+        return val
+
+
+def _len(lst):
+    return lst.total() if isinstance(lst, SymList) else len(lst)
+
+
+def _elem(lst, j):
+    """element j of a list (plain or of symbolic length); j is within range by the caller's hypothesis"""
+    if isinstance(lst, SymList):
+        v = lst.elem_fn(j)[1]
+        for i, x in enumerate(lst.appended):
+            v = ite(j == lst.length + i, x, v)
+        return v
+    v = 0
+    for i, x in enumerate(lst):
+        v = ite(j == i, x, v)
+    return v
+
+
+def _ascending(lst, bound=None):
+    """for the two arbitrary (skolem) positions I < J: 0 <= lst[I] < lst[J] (<= bound)"""
+    i, j = anyst["I"], anyst["J"]
+    n = _len(lst)
+    a, b = _elem(lst, i), _elem(lst, j)
+    conds = [Implies(And(i >= 0, i < n), And(a >= 0, a <= 255)),
+             Implies(And(i >= 0, i < j, j < n), a < b)]
+    if bound is not None:
+        conds.append(Implies(And(i >= 0, i < n), a <= bound))
+        conds.append(Implies(And(j >= 0, j < n), b <= bound))
+    return And(conds)
+
+
+# the two loop-carried locals, by what they hold when the loop is entered (names are incidental)
+ANY_ROLES = {"last": ("last_seen", lambda v: isinstance(v, int) and not isinstance(v, bool) and v == -1),
+             "acc": ("result", lambda v: isinstance(v, list) and v == [])}
+
+
+def any_inv(lc):
+    env, it = lc.env, lc.interp
+    last = lc.get("last")
+    res = lc.get("acc")
+    n = _len(res)
+    return {"last-seen-in-range": And(last >= -1, last <= 255),
+            "empty-exactly-when-nothing-was-accepted": (n == 0) == (last == -1),
+            "accepted-types-ascending-and-bounded-by-the-last-one": _ascending(res, last),
+            "length-bounded": And(n >= 0, n <= last + 1)}
+
+
+def any_havoc(lc):
+    ctx = lc.ctx
+    vi, vj = ctx.fresh_int("res_I", 0, 255), ctx.fresh_int("res_J", 0, 255)
+
+    def elem_fn(j):
+        return False, ite(j == anyst["I"], vi, ite(j == anyst["J"], vj, ctx.fresh_int("res_other", 0, 255)))
+    lc.set("acc", SymList(ctx.fresh_int("res_len", 0, 256), elem_fn))
+    lc.set("last", ctx.fresh_int("last_seen", -1, 255))
+
+
+def any_variant(lc):
+    return 255 - lc.get("last")
+
+
+def r_any_stream(ctx, interp, fn):
+    if getattr(ctx, "native", False):
+        return      # loop-rule states are not executions; the finite-prefix units above replay natively
+    anyst.clear()
+    anyst.update(I=ctx.int("I", 0, 300), J=ctx.int("J", 0, 300))
+    u = EndlessAdversary(ctx)
+    h = Harness(ctx, interp, u)
+    out = h.run(S.QueryDeviceTypes, sym_addr(ctx, A.GearShort, "d"))
+    ctx.cover()
+    ctx.prove("error-or-data", out[0] == "return" or is_seq_error(out), detail="outcome %r" % (out[:2],))
+    if out[0] != "return":
+        return
+    res = out[1]
+    ctx.prove("returned-types-strictly-ascending-whatever-the-length", _ascending(res))
+    ctx.prove("at-most-256-types", _len(res) <= 256)
+
+
 def units(tier):
     CF.WMAX = 64
     U = []
@@ -110,6 +216,10 @@ def units(tier):
             ctx.prove("returned-types-strictly-ascending", And([res[i] < res[i + 1] for i in range(len(res) - 1)]),
                       detail="answers %r, returned %r" % (given, res))
         unit("device-types-adversarial/len=%d" % length, r_adv)
+
+    # ------------------------------------------------------------ device types against ANY answer stream (loop rule):
+    # termination by a variant and "what is returned is strictly ascending" for streams of any length
+    unit("device-types-any-stream", r_any_stream, loops={(QDT, 0): LoopSpec("next-type", any_inv, any_havoc, variant=any_variant, roles=ANY_ROLES)})
 
     # ------------------------------------------------------------ groups
     for dname, dmk in short_dests() + other_dests():
@@ -202,7 +312,8 @@ DEPENDENCIES = ['C04', 'C05']
 META = {
     "level": "proof",
     "bounds": {"device-type lists": "every ascending list over 0..253 of length 0..8 (length enumerated, values symbolic)",
-               "adversarial answer streams": "every stream of 1..5 arbitrary answers (any value 0..255 / silence / framing "
+               "adversarial answer streams (any length)": "every infinite stream of arbitrary answers (value / silence / framing error): "
+               "termination and ascending order by the loop rule", "adversarial answer streams (exact data)": "every stream of 1..5 arbitrary answers (any value 0..255 / silence / framing "
                "error, symbolic) followed by 254 for ever",
                "groups": "all 2^16 current masks x all 2^16 requested sets (symbolic bits), short/int/group/broadcast destinations",
                "faults": "one silence or framing error at any step"},
@@ -210,8 +321,9 @@ META = {
         "ASSUMED unit contract contracts/units/gear102.py (groups, QUERY DEVICE TYPE / QUERY NEXT DEVICE TYPE protocol)",
         "conditional yields inside the group loops are merged by if-conversion (unit state := ite(cond, after, before)); "
         "the number of changes is the sum of the yield conditions",
-        "termination against never-ending adversarial answers beyond the enumerated prefixes is not decided here",
+        "QueryDeviceTypes against answer streams of ANY length: loop rule with the variant 255 - last_seen (termination) and a "
+        "skolemised invariant (what is accepted is strictly ascending and bounded by the last accepted type)",
     ],
-    "undecided_clauses": ["termination for unbounded adversarial answer streams (needs a loop variant; see DESIGN.md)"],
+    "undecided_clauses": [],
     "trusted_base": ["contracts/units/gear102.py", "pyvc/seq.py"],
 }
